@@ -1,4 +1,81 @@
-(* C15 - placeholder while the proofs are being written; replaced by the real statements. *)
-From Spl Require Import Model.SemTok.
-Theorem C15_placeholder : True. Proof. exact I. Qed.
-Print Assumptions C15_placeholder.
+(* C15 - semantic tokens are well-formed and agree with lexical class and binding kind.
+   Statements only; every proof is `exact <lemma>` (Proofs/SemTokProofs.v).  The theorems are about
+   the model Model/SemTok.v of lsp4spl/src/features/semantic_tokens.rs; [doc_wf_b] is the explicit,
+   executable well-formedness predicate on analysed documents (tokens ordered / sliceable / not
+   starting at a line terminator; declarations in source order with in-bounds ranges; a
+   declaration's name ends with an identifier token).
+
+   PROVED here, for ALL documents satisfying [doc_wf_b]: no panic (in particular none of the two
+   u32 subtractions underflows), the decoded stream is the image of an order-preserving
+   subsequence of the document's tokens (each decoded token = position of the first byte and
+   UTF-16 length of ONE lexical token), strictly increasing, byte ranges pairwise disjoint,
+   keywords / numbers / comments carry exactly their lexical class, and every keyword / number /
+   comment inside a declaration is reported.  Also proved: the token half of [doc_wf_b] for every
+   output of `lex`, the ordering part of the tree half for every output of `parse`.
+   NOT proved (validated by correspondence + oracle only): that build/analyze keep the tree part,
+   that declaration names end with identifier tokens, and the classification of identifiers by
+   binding kind on well-typed programs ([C15_full_statement]). *)
+From Coq Require Import Sorting.Sorted.
+From Spl Require Import Model.SemTok Proofs.SemTokProofs Proofs.ParserTotal.
+
+Theorem C15_no_panic : forall d, doc_wf_b d = true -> exists data, semantic_tokens d = SOk data.
+Proof. exact semtok_no_panic. Qed.
+Print Assumptions C15_no_panic.
+
+Theorem C15_coincide : forall d data,
+  doc_wf_b d = true -> semantic_tokens d = SOk data ->
+  decode data = map (tok_view (d_text d)) (emitted d) /\ Subseq (map fst (emitted d)) (d_toks d).
+Proof. exact semtok_coincide. Qed.
+Print Assumptions C15_coincide.
+
+Theorem C15_increasing : forall d data,
+  doc_wf_b d = true -> semantic_tokens d = SOk data ->
+  StronglySorted (fun a b => pos_lt (at_pos a) (at_pos b)) (decode data).
+Proof. exact semtok_increasing. Qed.
+Print Assumptions C15_increasing.
+
+Theorem C15_disjoint : forall d,
+  doc_wf_b d = true ->
+  StronglySorted (fun k1 k2 : token => (ts k1 < te k1 /\ te k1 <= ts k2)%N) (map fst (emitted d)).
+Proof. exact semtok_disjoint. Qed.
+Print Assumptions C15_disjoint.
+
+Theorem C15_lexical_class : forall d, doc_wf_b d = true -> Forall lex_ok (emitted d).
+Proof. exact semtok_lexical_class. Qed.
+Print Assumptions C15_lexical_class.
+
+Theorem C15_lexical_complete : forall d i g off j k c,
+  doc_wf_b d = true ->
+  nth_error (pg_decls (d_ast d)) i = Some (g, off) ->
+  (off + i_s (gdecl_info g) <= j < off + i_e (gdecl_info g))%nat ->
+  nth_error (d_toks d) j = Some k -> map_class (tk k) = Some c ->
+  In (k, c) (emitted d).
+Proof. exact semtok_lexical_complete. Qed.
+Print Assumptions C15_lexical_complete.
+
+Theorem C15_tokens_wf : forall s toks, lex s = Some toks -> toks_wf_from s 0 toks = true.
+Proof. exact lex_toks_wf. Qed.
+Print Assumptions C15_tokens_wf.
+
+Theorem C15_decls_ordered : forall toks prog,
+  EofLast toks -> parse toks = Done prog -> decls_ordered_b (length toks) 0 (pg_decls prog) = true.
+Proof. exact parse_decls_ordered. Qed.
+Print Assumptions C15_decls_ordered.
+
+(* ---- non-vacuity: `type t = int; // é€😀 c` LF `proc f(p: t) { var v: t; v := p; }` ---- *)
+Definition c15_text : text :=
+  [116; 121; 112; 101; 32; 116; 32; 61; 32; 105; 110; 116; 59; 32; 47; 47; 32; 233; 8364; 128512; 32; 99; 10;
+   112; 114; 111; 99; 32; 102; 40; 112; 58; 32; 116; 41; 32; 123; 32; 118; 97; 114; 32; 118; 58; 32; 116; 59; 32;
+   118; 32; 58; 61; 32; 112; 59; 32; 125]%N.
+
+Definition c15_doc : option doc := match new_doc c15_text with Done d => Some d | _ => None end.
+
+Example C15_example_wf : option_map doc_wf_b c15_doc = Some true.
+Proof. vm_compute. reflexivity. Qed.
+
+Example C15_example_stream :
+  option_map (fun d => match semantic_tokens d with SOk data => Some (map (fun a => (at_line a, at_col a, at_len a, at_ty a, at_mod a)) (decode data)) | SFail _ => None end) c15_doc
+  = Some (Some [ (0, 0, 4, 1, 0); (0, 5, 1, 3, 1); (0, 9, 3, 3, 0); (0, 14, 10, 0, 0);
+                 (1, 0, 4, 1, 0); (1, 5, 1, 4, 1); (1, 7, 1, 5, 1); (1, 10, 1, 3, 0);
+                 (1, 15, 3, 1, 0); (1, 19, 1, 6, 1); (1, 22, 1, 3, 0); (1, 25, 1, 6, 0); (1, 30, 1, 5, 0) ])%N.
+Proof. vm_compute. reflexivity. Qed.
